@@ -511,6 +511,10 @@ class NumpyFuncs:
             return n
         if name == "dtype":
             return Opaque("dtype", a.kind)
+        if name in ("values",):
+            return a          # a validated frame is modelled by its 2-D values
+        if name == "index":
+            return Opaque("index", a)
         if name == "T":
             if a.rank == 2:
                 return Arr((a.shape[1], a.shape[0]), lambda i, j: a.get(j, i), a.kind, view_of=a)
